@@ -312,7 +312,8 @@ Relation(c) == RelationOf(c, Allowed(c))
                                   when the system is rank deficient or has no more rows than columns       (1c05874)
      "OriginalLinearSquares"      LinearComparer: sqrt(sum((x - y)^2)) WITHOUT moduli: for complex samples the sum of
                                   squares can vanish although x # y                                        (8219f0b) *)
-FlawNames == {"OriginalComplexOrdering", "OriginalCongruenceLinear", "OriginalSpanResidual", "OriginalLinearSquares"}
+FlawNames == {"OriginalComplexOrdering", "OriginalCongruenceLinear", "OriginalSpanResidual", "OriginalLinearSquares",
+              "AliasedModeFilter"}                     \* (the last one: see "comparer objects and call histories")
 SqSum(D) == GSum([k \in 1..Len(D) |-> GMul(D[k], D[k])])
 OriginalSpanAccept(v, vs) == Rank(vs) < Len(vs) \/ Len(v) <= Len(vs) \/ InSpan(v, vs)
 ImplSpanAccept(v, vs, flaws) == IF "OriginalSpanResidual" \in flaws THEN OriginalSpanAccept(v, vs) ELSE InSpan(v, vs)
@@ -367,6 +368,31 @@ DeviationClass(c, flaws) ==
        THEN "linear-complex-sum-of-squares"
   ELSE "none"
 LawImplDeviatesOnlyThere(c, flaws) == ImplRefines(c, flaws) \/ DeviationClass(c, flaws) # "none"
+
+(* ------------------------------------------------------------------ comparer objects and call histories
+   The statement speaks about a comparer and one submission: the outcome of a call depends on that call only, whatever
+   the same comparer object -- or a grader object using it, or another grader sharing it (set_default_comparer, one
+   LinearComparer() passed to several graders) -- was asked before.
+   Property level: the allowed outcomes of a history of calls are the allowed outcomes of its calls, one by one.
+   Implementation-shaped: a LinearComparer object keeps the tuple of its configured modes; when a side of the
+   comparison is zero the current code filters a COPY of it.  The variant "AliasedModeFilter" filters the object's own
+   list in place: the first zero submission (or zero expected value) removes proportional and linear for every later
+   call on that object.  (Not a defect the code ever had: a seeded change the check missed while every case was
+   replayed on a fresh object; the variant is kept as vacuity guard of the history instance.)                    *)
+HistoryAllowed(calls) == [i \in 1..Len(calls) |-> Allowed(calls[i])]
+LawHistoryIndependent(calls) == \A i, j \in 1..Len(calls) : calls[i] = calls[j] => HistoryAllowed(calls)[i] = HistoryAllowed(calls)[j]
+Graded(c) == ~(c.evalerr \/ WrongShape(c))
+ObjModesInit(cfg) == Configured(cfg)
+ObjModesNext(modes, c, flaws) ==
+  IF c.kind = "linear" /\ Graded(c) /\ "AliasedModeFilter" \in flaws /\ EitherZero(LinE(c), LinS(c)) THEN modes \cap ZeroCompatible ELSE modes
+ImplOutcomeOnObject(c, modes, flaws) ==
+  IF c.kind = "linear" /\ Graded(c)
+  THEN LET E == LinE(c)  dE == c.P[1][1].den  S == LinS(c)  dS == c.S[1].den
+           v == IF EitherZero(E, S) THEN modes \cap ZeroCompatible ELSE modes
+       IN IF v = {} THEN SFError ELSE Grade(MaxCredit(c.cfg, {m \in v : ImplFitZero(m, E, dE, S, dS, c.jit, flaws)}))
+  ELSE ImplOutcome(c, flaws)
+\* on a fresh object the stateful model is the stateless one
+LawFreshObject(c, flaws) == ImplOutcomeOnObject(c, ObjModesInit(c.cfg), flaws) = ImplOutcome(c, flaws)
 
 (* ------------------------------------------------------------------ overflow-aware comparison of non-negative rationals *)
 RECURSIVE CmpFrac(_, _, _, _)
